@@ -22,11 +22,19 @@ import os
 import random
 import re
 import time
+import uuid
 
 import vf
 
 MC_CFG = "SwarmMC.cfg"
 GEN_CFG = "SwarmGen.cfg"
+
+
+def run_tlc(module, cfg, **kw):
+    """vf.run_tlc with a metadir that is unique across the threads of this process (the default name is
+    built from pid and milliseconds, which collides when several validations start together)"""
+    md = os.path.join(vf.WORK, "tlc-meta", "c20-%s-%s" % (os.path.basename(cfg), uuid.uuid4().hex[:12]))
+    return vf.run_tlc(module, cfg, metadir=md, **kw)
 
 
 # ----------------------------------------------------------------------------- scenarios
@@ -205,13 +213,77 @@ def classify(ev, prefix, mismatch):
         if r["e"] in ("End", "Get"):
             warm = "cache=%s,best=%s" % ("warm" if r["flags"][3] else "cold", "set" if r["flags"][2] else "unset")
             break
-    sig = "reject:" + ev.get("e", "?")
+    name = ev.get("e", "?")
     if mismatch:
-        sig += "." + "+".join(sorted(set(mismatch)))
+        fields = sorted(set(f if "." in f else name + "." + f for f in mismatch))
+        sig = "reject:" + "+".join(fields)
+    else:
+        sig = "reject:" + name
     sig += ":edits=" + ("+".join(reversed(edits)) if edits else "none")
     if warm:
         sig += ":" + warm
+    # iterations completed in the running call when the event was recorded
+    its, prev, incall = 0, None, False
+    for r in prefix:
+        if r["e"] == "Start":
+            its, incall = 0, True
+        elif r["e"] == "End":
+            incall = False
+        elif r["e"] == "In" and prev == "Rng":
+            its += 1
+        prev = r["e"]
+    if incall:
+        sig += ":iter=%d" % its
     return sig
+
+
+STATS = []
+
+
+def trace_stats(execs):
+    """what the recorded executions exercised (vacuity information for the evidence file)"""
+    st = {}
+
+    def inc(k, n=1):
+        st[k] = st.get(k, 0) + n
+
+    for _, ex in execs:
+        kinds = [r["e"] for r in ex]
+        inc("executions")
+        inc("events", len(ex))
+        if ex[0].get("api") == 1:
+            inc("executions through the C wrapper")
+        if any(r["e"] == "In" and not r["ok"] for r in ex):
+            inc("executions with a point outside the domain")
+        ins = [r for r in ex if r["e"] == "In"]
+        if ins and not any(r["ok"] for r in ins):
+            inc("executions where no point is ever inside the domain")
+        if "Threw" in kinds:
+            inc("executions with a call on an uninitialised state")
+        for r in ex:
+            if r["e"] == "Edit":
+                inc("edit " + r["k"])
+            elif r["e"] == "InitBox":
+                inc("edit initBox")
+            elif r["e"] == "In":
+                inc("domain tests")
+            elif r["e"] == "Obj":
+                inc("objective calls")
+                inc("objective points", len(r["x"]))
+            elif r["e"] == "Rng":
+                inc("random numbers")
+            elif r["e"] == "Start":
+                inc("calls")
+                inc("iterations requested", r["k"])
+        # batches skipped because no point was inside: an In directly followed by something that is not In / Obj
+        for a, b in zip(ex, ex[1:]):
+            if a["e"] == "In" and b["e"] not in ("In", "Obj"):
+                inc("objective calls skipped (empty batch)")
+        # a best that improved during an execution
+        ends = [r for r in ex if r["e"] == "End" and r["flags"][2]]
+        if len(ends) > 1 and any(a["gbest"] != b["gbest"] for a, b in zip(ends, ends[1:])):
+            inc("executions where the swarm best moved between calls")
+    return st
 
 
 def validate_file(args):
@@ -223,6 +295,7 @@ def validate_file(args):
             raise vf.FrameworkError("scenario left the lattice (generator bound too weak): %s %s" % (path, json.dumps(r)[:300]))
     execs = split_traces(rows)
     total = len(execs)
+    STATS.append(trace_stats(execs))
     rejections = []
     n_ok = 0
     gen = dist = 0
@@ -233,7 +306,7 @@ def validate_file(args):
         cur = path + ".cur%d" % rounds
         flatrows = [r for _, ex in execs for r in ex]
         vf.write_ndjson(cur, flatrows)
-        r = vf.run_tlc("SwarmTrace.tla", os.path.join(vf.SPEC, "SwarmTrace.cfg"), workers=1, timeout=1500, env={"TRACE": cur}, xmx="3g")
+        r = run_tlc("SwarmTrace.tla", os.path.join(vf.SPEC, "SwarmTrace.cfg"), workers=1, timeout=1500, env={"TRACE": cur}, xmx="3g")
         gen += r.generated
         dist += r.distinct
         if r.timed_out:
@@ -314,18 +387,17 @@ def run(ctx):
                ("np2-it1-calls3-edits3", dict(NP=2, MAXIT=1, MAXCALLS=3, MAXEDITS=3, COEFS="{1}", DOMS="{1,2,3,4,5,6}"), 5),
                ("np3-it1-calls2-edits1", dict(NP=3, MAXIT=1, MAXCALLS=2, MAXEDITS=1, COEFS="{1}", DOMS="{1,2,3,5}", RNG="{0,2}"), 5)]
     else:
-        mcs = []
-        for dm in range(1, 7):
-            for cf in (1, 2):
-                mcs.append(("np2-it3-calls3-edits2-dom%d-coef%d" % (dm, cf),
-                            dict(NP=2, MAXIT=3, MAXCALLS=3, MAXEDITS=2, COEFS="{%d}" % cf, DOMS="{%d}" % dm), 2))
-        mcs.append(("np2-it2-calls3-edits3", dict(NP=2, MAXIT=2, MAXCALLS=3, MAXEDITS=3, COEFS="{3,4}", DOMS="{1,2,3,4,5,6}"), 4))
-        mcs.append(("np3-it2-calls2-edits1", dict(NP=3, MAXIT=2, MAXCALLS=2, MAXEDITS=1, COEFS="{1}", DOMS="{1,2,3,5}", RNG="{0,2}"), 4))
+        mcs = [("np2-it3-calls2-edits1", dict(NP=2, MAXIT=3, MAXCALLS=2, MAXEDITS=1, COEFS="{1,2}", DOMS="{1,2,3,4,5,6}"), 5),
+               ("np2-it2-calls3-edits2", dict(NP=2, MAXIT=2, MAXCALLS=3, MAXEDITS=2, COEFS="{1,2}", DOMS="{1,2,3,4,5,6}"), 4),
+               ("np2-it3-calls3-edits0", dict(NP=2, MAXIT=3, MAXCALLS=3, MAXEDITS=0, COEFS="{3,4}", DOMS="{1,2,3,4,5,6}"), 3),
+               ("np2-it1-calls4-edits4", dict(NP=2, MAXIT=1, MAXCALLS=4, MAXEDITS=4, COEFS="{1,3}", DOMS="{1,2,3,4,5,6}"), 2),
+               ("np3-it2-calls2-edits1", dict(NP=3, MAXIT=2, MAXCALLS=2, MAXEDITS=1, COEFS="{1}", DOMS="{1,2,3,5}", RNG="{0,2}"), 2),
+               ("np1-it3-calls3-edits2", dict(NP=1, MAXIT=3, MAXCALLS=3, MAXEDITS=2, COEFS="{1,2,3,4}", DOMS="{1,2,3,4,5,6}"), 1)]
 
     def mc_one(m):
         label, kw, workers = m
         c = cfg_with(MC_CFG, "MC-%s.cfg" % label, **kw)
-        return vf.run_tlc("SwarmMC.tla", c, workers=workers, timeout=1500 if quick else 14000, xmx="6g")
+        return run_tlc("SwarmMC.tla", c, workers=workers, timeout=1500 if quick else 14000, xmx="4g")
 
     # ---- 2. spec -> code: scripts per abstract edge that completes a call
     if quick:
@@ -341,7 +413,7 @@ def run(ctx):
     def gen_one(g):
         label, kw = g
         c = cfg_with(GEN_CFG, "Gen-%s.cfg" % label, **kw)
-        return vf.run_tlc("SwarmMC.tla", c, workers=1, timeout=2400 if quick else 14000, xmx="6g")
+        return run_tlc("SwarmMC.tla", c, workers=1, timeout=2400 if quick else 14000, xmx="3g")
 
     jobs = [("mc", m) for m in mcs] + [("gen", g) for g in gens]
     results = vf.parallel_map(lambda j: mc_one(j[1]) if j[0] == "mc" else gen_one(j[1]), jobs, nproc=len(jobs))
@@ -361,8 +433,15 @@ def run(ctx):
         scripts = [json.loads(json.loads(m)) for m in re.findall(r'<<"SCRIPT", ("(?:[^"\\]|\\.)*")>>', r.out)]
         if not scripts:
             raise vf.FrameworkError("Gen configuration %s printed no script" % label)
-        cap = 4000 if quick else 60000
+        cap = 2500 if quick else 60000
         ctx.extra.setdefault("tlc_scripts", {})[label] = len(scripts)
+        sst = ctx.extra.setdefault("tlc_script_statistics", {})
+        for sc in scripts:
+            k = "domain %d" % sc[0]["env"]["dom"]
+            sst[k] = sst.get(k, 0) + 1
+            for e in sc[1:]:
+                k = ("edit " + e["k"]) if e["a"] == "edit" else ("call with %d iterations" % e["k"] if e["a"] == "call" else "draw %d/2" % e["r"])
+                sst[k] = sst.get(k, 0) + 1
         if len(scripts) > cap:
             rnd.shuffle(scripts)
             scripts = scripts[:cap]
@@ -373,7 +452,7 @@ def run(ctx):
         scen_sets.append(("gen-" + label, [script_to_scen(s, api=1 if i % 3 == 2 else 0) for i, s in enumerate(scripts)]))
 
     # ---- 3. seeded random scenarios, with "n then m" / "n + m" pairs
-    nrand = 1500 if quick else 24000
+    nrand = 1200 if quick else 24000
     rs, pairs = [], []
     for _ in range(nrand):
         txt, whole = random_scen(rnd, 4 if quick else 5)
@@ -452,6 +531,11 @@ def run(ctx):
                            {"split": rs[a], "whole": rs[b], "split_end": ea[-1:] , "whole_end": eb[-1:]})
         ctx.extra["split_vs_whole_pairs"] = len(pairs)
         ctx.extra["split_vs_whole_mismatches"] = mism
+    agg = {}
+    for st in STATS:
+        for k, v in st.items():
+            agg[k] = agg.get(k, 0) + v
+    ctx.extra["trace_statistics"] = agg
     ctx.traces = n_ok
     ctx.extra["executions_recorded"] = total_scen
     ctx.extra["executions_unexamined_after_repeated_rejections"] = unexamined
@@ -470,6 +554,85 @@ def run(ctx):
     ctx.assume("serial build: the OpenMP velocity loop is not exercised here")
     ctx.assume("the running minima range over the evaluations the state still remembers: clearBestParticles and "
                "setBestParticlePositions restart them (see Swarm.tla, Remembered)")
+
+
+SELFTEST_SCEN = """SCEN 2 1 256 0 1
+CELLS 6
+-1 3
+0 1
+1 1
+2 0
+3 5
+4 7
+POS -512 384
+VEL 256 -128
+RNG 5 2 1 0 2 1
+OPS 5
+CALL 1 1 2 2
+SB -256 0 768
+CALL 1 1 2 2
+CC
+CALL 1 1 2 2
+"""
+
+
+def selftest(ctx):
+    """binding demonstration: the recorded execution is accepted, every single-field corruption of it is rejected"""
+    lib = vf.build_lib("hooks")
+    drv = vf.compile_driver("swarm_replay.cpp", lib)
+    wd = vf.workdir("c20-selftest")
+    sp, tp = os.path.join(wd, "s.scen"), os.path.join(wd, "s.ndjson")
+    open(sp, "w").write(SELFTEST_SCEN)
+    vf.sh([drv, sp, tp], timeout=120, check=True)
+    rows = vf.read_ndjson(tp)
+    ok, rejs, _, _, _, _ = validate_file((tp, "selftest"))
+    if rejs:
+        print("selftest: the unmodified trace is rejected: %s" % rejs[0]["signature"])
+        return 1
+    print("selftest: unmodified trace accepted (%d events)" % len(rows))
+
+    def first(pred, nth=0):
+        return [i for i, r in enumerate(rows) if pred(r)][nth]
+
+    def bump(v):
+        return [[c + 64 for c in x] for x in v]
+
+    iobj = first(lambda r: r["e"] == "Obj", 1)
+    iin = first(lambda r: r["e"] == "In", 3)
+    iend = first(lambda r: r["e"] == "End", 1)
+    irng = first(lambda r: r["e"] == "Rng", 0)      # a draw that multiplies a non-zero distance
+    muts = [
+        ("objective value", iobj, lambda r: r.update(v=[r["v"][0] + 1] + r["v"][1:])),
+        ("objective batch point", iobj, lambda r: r.update(x=bump(r["x"]))),
+        ("domain verdict", iin, lambda r: r.update(ok=not r["ok"])),
+        ("domain test point", iin, lambda r: r.update(x=[c + 64 for c in r["x"]])),
+        ("best positions after call", iend, lambda r: r.update(best=bump(r["best"][:1]) + r["best"][1:])),
+        ("swarm best after call", iend, lambda r: r.update(gbest=[c + 64 for c in r["gbest"]])),
+        ("position after call", iend, lambda r: r.update(pos=bump(r["pos"]))),
+        ("velocity after call", iend, lambda r: r.update(vel=bump(r["vel"]))),
+        ("cache flag after call", iend, lambda r: r.update(flags=r["flags"][:3] + [not r["flags"][3]])),
+        ("random number", irng, lambda r: r.update(r=(r["r"] + 1) % 3)),
+    ]
+    bad = 0
+    for name, idx, fn in muts:
+        cp = [dict(r) for r in rows]
+        fn(cp[idx])
+        mp = os.path.join(wd, "m-%s.ndjson" % name.replace(" ", "_"))
+        vf.write_ndjson(mp, cp)
+        ok, rejs, _, _, _, _ = validate_file((mp, "selftest"))
+        if rejs:
+            print("selftest: corrupted %-28s (event %d) -> rejected at line %d, %s" % (name, idx + 1, rejs[0]["line_in_execution"], rejs[0]["signature"]))
+        else:
+            print("selftest: corrupted %-28s (event %d) -> ACCEPTED (binding hole)" % (name, idx + 1))
+            bad += 1
+    # dropping an event
+    cp = [dict(r) for j, r in enumerate(rows) if j != iin]
+    mp = os.path.join(wd, "m-dropped.ndjson")
+    vf.write_ndjson(mp, cp)
+    ok, rejs, _, _, _, _ = validate_file((mp, "selftest"))
+    print("selftest: dropped domain test event -> %s" % ("rejected, " + rejs[0]["signature"] if rejs else "ACCEPTED (binding hole)"))
+    bad += 0 if rejs else 1
+    return 1 if bad else 0
 
 
 def replay(ctx, path):
